@@ -1,22 +1,23 @@
 #!/bin/bash
-# confirm_wave_b.sh <tag> <prop> <n> [checks...]: phase B — run /verif checks against /repo with a confirmed change applied
+# confirm_wave_b.sh <tag> <prop> <n> [checks...]: phase B — run /verif checks against $VB_REPO with a confirmed change applied
 # (and revert), then keep it as /verif/seeded/<prop>-<tag><n>/.
 set -u
+VB_REPO=${VB_REPO:-/repo}; VB_VERIF=${VB_VERIF:-/verif}; export VERIF_REPO=$VB_REPO
 TAG=$1; P=$2; N=$3; shift 3
 CHECKS="${*:-$P}"
 SRC=${SEEDDIR:-/tmp/seeded_out4}/$P/$N
 grep -q "^CONFIRMED" "$SRC/confirm.txt" || { echo "$P-$N: not confirmed: $(tail -1 $SRC/confirm.txt)"; exit 1; }
-export VERIF_EVIDENCE_DIR=/verif/sim/target/tmp/seeded-evidence VERIF_REPLAY_DIR=/verif/sim/target/tmp/seeded-replays
+export VERIF_EVIDENCE_DIR=$VB_VERIF/sim/target/tmp/seeded-evidence VERIF_REPLAY_DIR=$VB_VERIF/sim/target/tmp/seeded-replays
 mkdir -p $VERIF_EVIDENCE_DIR $VERIF_REPLAY_DIR
-if [ -n "$(git -C /repo status --porcelain --untracked-files=no)" ]; then echo "repo dirty"; exit 2; fi
-git -C /repo apply "$SRC/patch.diff" || exit 2
+if [ -n "$(git -C $VB_REPO status --porcelain --untracked-files=no)" ]; then echo "repo dirty"; exit 2; fi
+git -C $VB_REPO apply "$SRC/patch.diff" || exit 2
 det=""
 for c in $CHECKS; do
-  o=$(/verif/check $c quick 2>&1); code=$?
+  o=$($VB_VERIF/check $c quick 2>&1); code=$?
   if [ $code -eq 1 ]; then det="$det $c[$(echo "$o" | grep -m1 'class=' | sed 's/.*class=\([^ ]*\).*/\1/')]"; fi
   if [ $code -eq 2 ]; then det="$det $c[HARNESS-ERROR]"; echo "$o" | tail -5; fi
 done
-git -C /repo checkout -q -- .
+git -C $VB_REPO checkout -q -- .
 echo "$P-$TAG$N: detected by:${det:- NONE} (ran: $CHECKS)"
 D=/verif/seeded/$P-$TAG$N; mkdir -p $D; cp "$SRC/patch.diff" "$SRC/demo.rs" $D/
 python3 - "$SRC/meta.json" "$D/meta.json" "$P" "$det" "$CHECKS" "$SRC/confirm.txt" <<'PY'
